@@ -92,6 +92,17 @@ def new_trace(dirpath: str, files: Optional[Dict[int, str]] = None, parser: Opti
     return Trace(trace_dir=dirpath, **kw)
 
 
+def new_trace_same_mapping(dirpath: str, files: Any, parser: Optional[str] = None):
+    """Like new_trace, but hands the caller's own mapping / list object to the constructor (no defensive copy)."""
+    from hta.common.trace import Trace
+
+    kw = {}
+    pc = parser_config(parser)
+    if pc is not None:
+        kw["parser_config"] = pc
+    return Trace(trace_files=files, trace_dir=dirpath, **kw)
+
+
 def new_analysis(dirpath: str, files: Optional[Dict[int, str]] = None, **kw: Any):
     from hta.trace_analysis import TraceAnalysis
 
